@@ -19,7 +19,7 @@ TInit == PInit /\ l = 1
 TNext ==
   \/ /\ l <= Len(Log)
      /\ l' = l + 1
-     /\ \/ Ev.ev = "reset" /\ PReset(Ev.mode, Ev.backend, Ev.alist, Ev.adel, Ev.tags0, Ev.amb0, Ev.mans0, Ev.fallback, Ev.withman, Ev.subj)
+     /\ \/ Ev.ev = "reset" /\ PReset(Ev.mode, Ev.backend, Ev.alist, Ev.adel, Ev.tags0, Ev.amb0, Ev.mans0, Ev.fallback, Ev.withman, Ev.subj, Ev.mdelok)
         \/ Ev.ev = "op" /\ POp(Ev.kind, Ev.tag, Ev.man, Ev.res, Ev.list)
         \/ Ev.ev = "call" /\ PCall(Ev.id, Ev.kind, Ev.tag, Ev.man)
         \/ Ev.ev = "ret" /\ PRet(Ev.id, Ev.res, Ev.list)
